@@ -11,6 +11,7 @@ import (
 	"strings"
 	"sync"
 	"testing"
+	"time"
 
 	"pgregory.net/rapid"
 )
@@ -169,7 +170,14 @@ func runCheck[C any](t *testing.T, id string, gen func(*rapid.T) C, exec func(C)
 			rt.Fatalf("case not serialisable: %v", err)
 		}
 		writeFileAtomic(filepath.Join(outDir(), "current-"+id+".json"), wrap(cj))
+		t0 := time.Now()
 		o := exec(c)
+		if d := time.Since(t0); d > 5*time.Second || o.Inconclusive {
+			if f, err := os.OpenFile(filepath.Join(outDir(), "slow-"+id+".log"), os.O_APPEND|os.O_CREATE|os.O_WRONLY, 0o644); err == nil {
+				fmt.Fprintf(f, "%s %.1fs inconclusive=%v %s\n", t.Name(), d.Seconds(), o.Inconclusive, wrap(cj))
+				f.Close()
+			}
+		}
 		st.record(cj, o)
 		if o.Inconclusive || o.Known != "" {
 			return
